@@ -28,10 +28,10 @@ Print Assumptions C12_forced_is_fresh.
    none touches a RuleDefault/DeprecatedRule -- and both deep copies are in place.  The model is
    immutable by construction; this is what ties that to the code. *)
 Theorem C12_frame_sites :
-  frame_sites = [s "Enforcer._cycle_check: seen.add(check.match)";
-                 s "Enforcer._is_directory_updated: cache.setdefault(path, {})";
-                 s "Enforcer._is_directory_updated: cache_info['mtime'] = mtime";
-                 s "Enforcer.enforce: creds['system'] = creds.get('system_scope')"].
+  frame_sites = [s "cache.setdefault(path, {})";
+                 s "cache_info['mtime'] = mtime";
+                 s "creds['system'] = creds.get('system_scope')";
+                 s "seen.add(check.match)"].
 Proof. reflexivity. Qed.
 Print Assumptions C12_frame_sites.
 Theorem C12_deep_copies : register_copies = true /\ ruledefault_copies_deprecated = true.
